@@ -181,6 +181,26 @@ def orPk : PkKind → PkKind → PkKind
   | .no, k => k
   | k, _ => k
 
+/-- `name is not None and name in schema.names` -/
+def nameTaken (s : Schema) : Option Name → Bool
+  | some n => s.names.contains n
+  | none => false
+
+/-- the part of `DBIndex.__init__` after all checks: register the name, update the column flags, store the index -/
+def commitIndex (s : Schema) (t : Name) (nm : Option (Name × Src)) (cols : List Name) (isPk : PkKind) (uniq : Bool) : Schema :=
+  let single := cols.length == 1
+  let s1 := if isPk ≠ .no then updTable s t (fun t => { t with pkSet := true }) else s
+  { s1 with
+    names := s1.names ++ (nm.map (·.1)).toList
+    columns := s1.columns.map (fun c =>
+      if c.table == t && cols.contains c.name then
+        { c with isPk := orPk c.isPk (if single then isPk else .no),
+                 isPkPart := c.isPkPart || (isPk != .no),
+                 isUnique := c.isUnique || (uniq && single) }
+      else c)
+    indexes := s1.indexes ++ [{ table := t, name := nm.map (·.1), src := (nm.map (·.2)).getD .norm, cols := cols,
+                                isPk := isPk, isUnique := uniq }] }
+
 /-- `Table.add_index` followed by `DBIndex.__init__` (+ `Constraint.__init__`).
     `cols` are column names; the lookup `column_dict[name]` of `get_columns` is included (KeyError). -/
 def addIndex (d : Dialect) (s : Schema) (t : Name) (arg : IdxArg) (cols : List Name) (isPk : PkKind)
@@ -208,34 +228,8 @@ def addIndex (d : Dialect) (s : Schema) (t : Name) (arg : IdxArg) (cols : List N
       if cols = [] then .error ⟨"AssertionError", "index-no-columns"⟩
       else if isPk ≠ .no ∧ tbl.pkSet then .error ⟨"DBSchemaError", "pk-already-defined"⟩
       else if isPk ≠ .no ∧ isUnique = some false then .error ⟨"DBSchemaError", "pk-not-unique"⟩
-      else
-        let uniq : Bool := if isPk ≠ .no then true else isUnique.getD false
-        match nm with
-        | some (n, src) =>
-            if n ∈ s.names then .error ⟨"DBSchemaError", "index-name-in-use"⟩
-            else
-              let single := cols.length == 1
-              let s1 := if isPk ≠ .no then updTable s t (fun t => { t with pkSet := true }) else s
-              .ok { s1 with
-                    names := s1.names ++ [n]
-                    columns := s1.columns.map (fun c =>
-                      if c.table == t && cols.contains c.name then
-                        { c with isPk := orPk c.isPk (if single then isPk else .no),
-                                 isPkPart := c.isPkPart || (isPk != .no),
-                                 isUnique := c.isUnique || (uniq && single) }
-                      else c)
-                    indexes := s1.indexes ++ [{ table := t, name := some n, src := src, cols := cols, isPk := isPk, isUnique := uniq }] }
-        | none =>
-            let single := cols.length == 1
-            let s1 := if isPk ≠ .no then updTable s t (fun t => { t with pkSet := true }) else s
-            .ok { s1 with
-                  columns := s1.columns.map (fun c =>
-                    if c.table == t && cols.contains c.name then
-                      { c with isPk := orPk c.isPk (if single then isPk else .no),
-                               isPkPart := c.isPkPart || (isPk != .no),
-                               isUnique := c.isUnique || (uniq && single) }
-                    else c)
-                  indexes := s1.indexes ++ [{ table := t, name := none, src := .norm, cols := cols, isPk := isPk, isUnique := uniq }] }
+      else if nameTaken s name then .error ⟨"DBSchemaError", "index-name-in-use"⟩
+      else .ok (commitIndex s t nm cols isPk (if isPk ≠ .no then true else isUnique.getD false))
 
 /-- `Table.add_foreign_key` followed by `ForeignKey.__init__`, including the implicit index on the child columns -/
 def addFk (d : Dialect) (s : Schema) (child : Name) (fkName : Option Name) (cols : List Name)
